@@ -22,6 +22,10 @@ func ListenerScenario(rng *Rng) (string, Sx) {
 	kind := "listener-undrained"
 	if drain == 1 {
 		kind = "listener-drained"
+	} else if rng.Chance(1, 4) {
+		// more pending connections than the hand-off channel (128) holds, nobody takes them
+		nd = 140
+		kind = "listener-backlog-full"
 	}
 	return kind, Ints(2, int64(nl), int64(nd), int64(drain), int64(rng.Next()>>2))
 }
@@ -146,7 +150,25 @@ func RunListener(in Sx) (Sx, []string) {
 			}
 		}()
 	}
-	time.Sleep(time.Duration(rng.Intn(2500)) * time.Microsecond)
+	if nd > 128 && drain == 0 {
+		// let every dial finish and the serve loop run into the full hand-off channel first
+		dw.Wait()
+		end := time.Now().Add(3 * time.Second)
+		for time.Now().Before(end) {
+			parked := false
+			for _, g := range allStacks() {
+				if strings.Contains(g.text, "(*TcpServer).accept") && g.status == "chan send" {
+					parked = true
+				}
+			}
+			if parked {
+				break
+			}
+			time.Sleep(time.Millisecond)
+		}
+	} else {
+		time.Sleep(time.Duration(rng.Intn(2500)) * time.Microsecond)
+	}
 	returned := make(chan bool, 1)
 	var panics int32
 	go func() {
